@@ -146,101 +146,219 @@ theorem wordBytes_length (k w : Nat) : (wordBytes k w).length = k := by
 
 /-! ## Reads -/
 
-theorem readSpan_zero : readSpan 0 = 0 := by simp [readSpan]
+/-- what the final partial word of a read needs besides the requested bytes: nothing when the length is a
+multiple of the word size or at least one word long (the word ending at `a+n` lies inside `[a, a+n)`);
+for a read shorter than a word, one of the two words `[a, a+8)` / `[a+n-8, a+n)` -/
+def TailOk (m : Mem) (a n : Nat) : Prop :=
+  n = 0 ∨ 8 ≤ n ∨ MappedRange m a 8 ∨ (8 ≤ a + n ∧ MappedRange m (a + n - 8) 8)
 
-theorem readSpan_pos (n : Nat) (h : n ≠ 0) : readSpan n = 8 + readSpan (n - 8) := by
-  unfold readSpan
-  omega
+theorem wordBytes_leWord8 (w : List Byte) (h : w.length = 8) : wordBytes 8 (leWord w) = w := by
+  have := wordBytes_leWord w
+  rwa [h] at this
 
-theorem readLoop_spec (m : Mem) (addr rem : Nat) (acc : List Byte) :
-    readLoop m addr rem acc =
-      if (bytesAt m addr (readSpan rem)).isSome then (bytesAt m addr rem).map (acc ++ ·)
-      else none := by
+theorem bytesAt_drop (m : Mem) (a n k : Nat) (w : List Byte) (h : bytesAt m a n = some w)
+    (hk : k ≤ n) : bytesAt m (a + k) (n - k) = some (w.drop k) := by
+  obtain ⟨hl, hi⟩ := bytesAt_spec m a n w h
+  rw [bytesAt_eq_some_iff]
+  refine ⟨by simp [hl], ?_⟩
+  intro i hlt
+  rw [show a + k + i = a + (k + i) by omega, hi (k + i) (by omega), List.getElem?_drop]
+
+theorem peek_eq_some (m : Mem) (a : Nat) (w : List Byte) (h : bytesAt m a 8 = some w) :
+    peek m a = some (leWord w) ∧ wordBytes 8 (leWord w) = w := by
+  refine ⟨by simp [peek, h], wordBytes_leWord8 w (bytesAt_spec _ _ _ _ h).1⟩
+
+theorem peek_eq_none_iff (m : Mem) (a : Nat) : peek m a = none ↔ ¬ MappedRange m a 8 := by
+  rw [← bytesAt_eq_none_iff, peek]
+  cases bytesAt m a 8 <;> simp
+
+/-- whatever the read returns is `acc` followed by exactly the requested bytes -/
+theorem readLoop_sound (m : Mem) (addr rem : Nat) (acc r : List Byte)
+    (h : readLoop m addr rem acc = some r) : ∃ bs, bytesAt m addr rem = some bs ∧ r = acc ++ bs := by
+  induction rem using Nat.strongRecOn generalizing addr acc with
+  | _ rem ih =>
+    rw [readLoop] at h
+    by_cases h0 : rem = 0
+    · subst h0
+      simp at h
+      exact ⟨[], by simp [bytesAt], by simp [h]⟩
+    · rw [if_neg h0] at h
+      by_cases h8 : 8 ≤ rem
+      · rw [if_pos h8] at h
+        cases hw : bytesAt m addr 8 with
+        | none =>
+          rw [(peek_eq_none_iff m addr).2 ((bytesAt_eq_none_iff _ _ _).1 hw)] at h
+          simp at h
+        | some w =>
+          obtain ⟨hp, hrt⟩ := peek_eq_some m addr w hw
+          rw [hp] at h
+          simp only [hrt] at h
+          obtain ⟨bs, hbs, hr⟩ := ih (rem - 8) (by omega) (addr + 8) (acc ++ w) h
+          refine ⟨w ++ bs, ?_, by rw [hr, List.append_assoc]⟩
+          have := bytesAt_append m addr 8 (rem - 8) w bs hw hbs
+          rwa [show 8 + (rem - 8) = rem by omega] at this
+      · rw [if_neg h8] at h
+        cases hw : bytesAt m addr 8 with
+        | some w =>
+          obtain ⟨hp, hrt⟩ := peek_eq_some m addr w hw
+          rw [hp] at h
+          simp only [hrt, Option.some.injEq] at h
+          exact ⟨w.take rem, bytesAt_take m addr 8 rem w hw (by omega), h.symm⟩
+        | none =>
+          rw [(peek_eq_none_iff m addr).2 ((bytesAt_eq_none_iff _ _ _).1 hw)] at h
+          simp only [] at h
+          by_cases hlow : addr + rem < 8
+          · rw [if_pos hlow] at h
+            simp at h
+          · rw [if_neg hlow] at h
+            cases hb : bytesAt m (addr + rem - 8) 8 with
+            | none =>
+              rw [(peek_eq_none_iff m _).2 ((bytesAt_eq_none_iff _ _ _).1 hb)] at h
+              simp at h
+            | some w =>
+              obtain ⟨hp, hrt⟩ := peek_eq_some m _ w hb
+              rw [hp] at h
+              simp only [hrt, Option.some.injEq] at h
+              refine ⟨w.drop (8 - rem), ?_, h.symm⟩
+              have := bytesAt_drop m (addr + rem - 8) 8 (8 - rem) w hb (by omega)
+              rwa [show addr + rem - 8 + (8 - rem) = addr by omega,
+                show 8 - (8 - rem) = rem by omega] at this
+
+/-- the read succeeds when the requested bytes are mapped and the tail word can be fetched -/
+theorem readLoop_complete (m : Mem) (addr rem : Nat) (acc : List Byte)
+    (hm : MappedRange m addr rem) (ht : TailOk m addr rem) :
+    (readLoop m addr rem acc).isSome = true := by
   induction rem using Nat.strongRecOn generalizing addr acc with
   | _ rem ih =>
     rw [readLoop]
     by_cases h0 : rem = 0
-    · subst h0
-      simp [readSpan_zero, bytesAt]
-    · rw [if_neg h0, readSpan_pos rem h0, peek]
-      cases hw : bytesAt m addr 8 with
-      | none =>
-        have : bytesAt m addr (8 + readSpan (rem - 8)) = none := by
-          rw [bytesAt_eq_none_iff, mappedRange_add]
-          rw [bytesAt_eq_none_iff] at hw
-          exact fun h => hw h.1
-        simp [this]
-      | some w =>
-        have hwl : w.length = 8 := (bytesAt_spec _ _ _ _ hw).1
-        simp only [Option.map_some]
-        rw [ih (rem - 8) (by omega)]
-        have hrt : wordBytes 8 (leWord w) = w := by
-          have := wordBytes_leWord w
-          rwa [hwl] at this
-        rw [hrt]
-        cases hs : bytesAt m (addr + 8) (readSpan (rem - 8)) with
-        | none =>
-          have : bytesAt m addr (8 + readSpan (rem - 8)) = none := by
-            rw [bytesAt_eq_none_iff, mappedRange_add]
-            rw [bytesAt_eq_none_iff] at hs
-            exact fun h => hs h.2
-          simp [this]
-        | some s =>
-          rw [bytesAt_append m addr 8 _ w s hw hs]
-          simp only [Option.isSome_some, if_true]
-          by_cases hle : rem ≤ 8
-          · have h8 : rem - 8 = 0 := by omega
-            rw [h8, bytesAt_take m addr 8 rem w hw hle]
-            simp [bytesAt]
-          · have hsp : rem - 8 ≤ readSpan (rem - 8) := by unfold readSpan; omega
-            have ht := bytesAt_take m (addr + 8) _ (rem - 8) s hs hsp
-            have := bytesAt_append m addr 8 (rem - 8) w _ hw ht
-            rw [show 8 + (rem - 8) = rem by omega] at this
-            rw [this, ht, List.take_of_length_le (by omega)]
-            simp
+    · rw [if_pos h0]; rfl
+    · rw [if_neg h0]
+      by_cases h8 : 8 ≤ rem
+      · rw [if_pos h8]
+        have hw8 : MappedRange m addr 8 := mappedRange_mono m addr rem addr 8 hm (Nat.le_refl _) (by omega)
+        obtain ⟨w, hw⟩ := Option.isSome_iff_exists.1 ((bytesAt_isSome_iff _ _ _).2 hw8)
+        rw [(peek_eq_some m addr w hw).1]
+        simp only []
+        apply ih (rem - 8) (by omega)
+        · exact mappedRange_mono m addr rem (addr + 8) (rem - 8) hm (by omega) (by omega)
+        · by_cases hz : rem - 8 = 0
+          · exact Or.inl hz
+          · by_cases h16 : 8 ≤ rem - 8
+            · exact Or.inr (Or.inl h16)
+            · refine Or.inr (Or.inr (Or.inr ⟨by omega, ?_⟩))
+              exact mappedRange_mono m addr rem _ 8 hm (by omega) (by omega)
+      · rw [if_neg h8]
+        rcases ht with h | h | h | ⟨hge, h⟩
+        · exact absurd h h0
+        · exact absurd h h8
+        · obtain ⟨w, hw⟩ := Option.isSome_iff_exists.1 ((bytesAt_isSome_iff _ _ _).2 h)
+          rw [(peek_eq_some m addr w hw).1]
+          rfl
+        · cases hf : peek m addr with
+          | some w => rfl
+          | none =>
+            simp only []
+            rw [if_neg (by omega)]
+            obtain ⟨w, hw⟩ := Option.isSome_iff_exists.1 ((bytesAt_isSome_iff _ _ _).2 h)
+            rw [(peek_eq_some m _ w hw).1]
+            rfl
 
-theorem read_spec (m : Mem) (a n : Nat) :
-    readMemory m a n = if (bytesAt m a (readSpan n)).isSome then bytesAt m a n else none := by
-  rw [readMemory, readLoop_spec]
-  split
-  · cases bytesAt m a n <;> simp
-  · rfl
-
-theorem le_readSpan (n : Nat) : n ≤ readSpan n := by unfold readSpan; omega
+/-- a read shorter than a word succeeds only if one of the two candidate words is mapped -/
+theorem readLoop_short_needs (m : Mem) (addr rem : Nat) (acc : List Byte) (h0 : rem ≠ 0) (h8 : ¬ 8 ≤ rem)
+    (h : (readLoop m addr rem acc).isSome = true) :
+    MappedRange m addr 8 ∨ (8 ≤ addr + rem ∧ MappedRange m (addr + rem - 8) 8) := by
+  rw [readLoop, if_neg h0, if_neg h8] at h
+  by_cases hf : MappedRange m addr 8
+  · exact Or.inl hf
+  · rw [(peek_eq_none_iff m addr).2 hf] at h
+    simp only [] at h
+    by_cases hlow : addr + rem < 8
+    · rw [if_pos hlow] at h
+      simp at h
+    · rw [if_neg hlow] at h
+      by_cases hb : MappedRange m (addr + rem - 8) 8
+      · exact Or.inr ⟨by omega, hb⟩
+      · rw [(peek_eq_none_iff m _).2 hb] at h
+        simp at h
 
 theorem read_exact (m : Mem) (a n : Nat) (bs : List Byte) (h : readMemory m a n = some bs) :
     bs.length = n ∧ ∀ i, i < n → m (a + i) = bs[i]? := by
-  rw [read_spec] at h
-  split at h
-  · exact bytesAt_spec m a n bs h
-  · simp at h
+  obtain ⟨bs', hbs', hr⟩ := readLoop_sound m a n [] bs h
+  rw [List.nil_append] at hr
+  subst hr
+  exact bytesAt_spec m a n _ hbs'
 
-theorem read_success_iff (m : Mem) (a n : Nat) :
-    (readMemory m a n).isSome = true ↔ MappedRange m a (readSpan n) := by
-  rw [read_spec, ← bytesAt_isSome_iff]
-  constructor
-  · intro h
-    split at h
-    · assumption
-    · simp at h
-  · intro h
-    rw [if_pos h, bytesAt_isSome_iff]
-    rw [bytesAt_isSome_iff] at h
-    exact mappedRange_mono m a _ a n h (Nat.le_refl _) (by have := le_readSpan n; omega)
+/-- exact characterisation, no assumption on the mappings -/
+theorem read_spec (m : Mem) (a n : Nat) :
+    (readMemory m a n = bytesAt m a n ∨ readMemory m a n = none) ∧
+    ((readMemory m a n).isSome = true ↔ MappedRange m a n ∧ TailOk m a n) := by
+  have hiff : (readMemory m a n).isSome = true ↔ MappedRange m a n ∧ TailOk m a n := by
+    constructor
+    · intro h
+      obtain ⟨r, hr⟩ := Option.isSome_iff_exists.1 h
+      obtain ⟨bs, hbs, _⟩ := readLoop_sound m a n [] r hr
+      have hm : MappedRange m a n := (bytesAt_isSome_iff m a n).1 (by rw [hbs]; rfl)
+      refine ⟨hm, ?_⟩
+      by_cases h0 : n = 0
+      · exact Or.inl h0
+      · by_cases h8 : 8 ≤ n
+        · exact Or.inr (Or.inl h8)
+        · exact Or.inr (Or.inr (readLoop_short_needs m a n [] h0 h8 h))
+    · rintro ⟨hm, ht⟩
+      exact readLoop_complete m a n [] hm ht
+  refine ⟨?_, hiff⟩
+  cases hr : readMemory m a n with
+  | none => exact Or.inr rfl
+  | some r =>
+    left
+    obtain ⟨bs, hbs, hrr⟩ := readLoop_sound m a n [] r hr
+    rw [hbs, hrr, List.nil_append]
 
-theorem read_total_partial (m : Mem) (a n : Nat) (h : MappedRange m a (readSpan n)) :
+/-- with page-granular mappings a mapped range shorter than a word has one of its two candidate words
+mapped: two page boundaries are never less than 15 bytes apart -/
+theorem tailOk_of_granular (m : Mem) (a n : Nat) (hp : PageGranular m) (hm : MappedRange m a n) :
+    TailOk m a n := by
+  by_cases h0 : n = 0
+  · exact Or.inl h0
+  by_cases h8 : 8 ≤ n
+  · exact Or.inr (Or.inl h8)
+  have hlast := hm (n - 1) (by omega)
+  have hfirst := hm 0 (by omega)
+  by_cases hsame : (a + 7) / 4096 = (a + (n - 1)) / 4096
+  · refine Or.inr (Or.inr (Or.inl ?_))
+    intro i hi
+    by_cases hin : i < n
+    · exact hm i hin
+    · exact hp (a + (n - 1)) (a + i) (by unfold pageSize; omega) hlast
+  · refine Or.inr (Or.inr (Or.inr ⟨by omega, ?_⟩))
+    intro i hi
+    by_cases hin : a ≤ a + n - 8 + i
+    · have := hm (a + n - 8 + i - a) (by omega)
+      rwa [show a + (a + n - 8 + i - a) = a + n - 8 + i by omega] at this
+    · exact hp (a + 0) (a + n - 8 + i) (by unfold pageSize; omega) hfirst
+
+theorem read_success_iff (m : Mem) (a n : Nat) (hp : PageGranular m) :
+    (readMemory m a n).isSome = true ↔ MappedRange m a n := by
+  rw [(read_spec m a n).2]
+  exact ⟨fun h => h.1, fun h => ⟨h, tailOk_of_granular m a n hp h⟩⟩
+
+theorem read_total (m : Mem) (a n : Nat) (hp : PageGranular m) (h : MappedRange m a n) :
     ∃ bs, readMemory m a n = some bs ∧ bs.length = n ∧ ∀ i, i < n → m (a + i) = bs[i]? := by
-  have hs := (read_success_iff m a n).2 h
+  have hs := (read_success_iff m a n hp).2 h
   obtain ⟨bs, hbs⟩ := Option.isSome_iff_exists.1 hs
   exact ⟨bs, hbs, read_exact m a n bs hbs⟩
 
-theorem read_total_words (m : Mem) (a n : Nat) (h8 : n % 8 = 0) (h : MappedRange m a n) :
+/-- no assumption on the mappings is needed from one word on, nor for whole words -/
+theorem read_total_long (m : Mem) (a n : Nat) (h8 : 8 ≤ n ∨ n % 8 = 0) (h : MappedRange m a n) :
     (readMemory m a n).isSome = true := by
-  rw [read_success_iff]
-  have : readSpan n = n := by unfold readSpan; omega
-  rwa [this]
+  rw [(read_spec m a n).2]
+  refine ⟨h, ?_⟩
+  by_cases h0 : n = 0
+  · exact Or.inl h0
+  · exact Or.inr (Or.inl (by omega))
 
-/-- witness memory: exactly one page `[4096, 8192)` mapped, every byte 0 -/
+/-- the witness of the repaired defect: exactly one page `[4096, 8192)` mapped, every byte 0 -/
 def onePageL : Mem := fun x => if 4096 ≤ x ∧ x < 8192 then some 0 else none
 
 theorem onePageL_granular : PageGranular onePageL := by
@@ -255,16 +373,6 @@ theorem onePageL_mapped_tail : MappedRange onePageL 8189 3 := by
   intro i hi
   unfold onePageL
   rw [if_pos (by omega)]; rfl
-
-theorem onePageL_read_fails : readMemory onePageL 8189 3 = none := by
-  have h : ¬ (readMemory onePageL 8189 3).isSome = true := by
-    rw [read_success_iff]
-    intro h
-    have := h 3 (by unfold readSpan; omega)
-    simp [onePageL] at this
-  cases hr : readMemory onePageL 8189 3 with
-  | none => rfl
-  | some x => simp [hr] at h
 
 /-! ## Writes -/
 
@@ -308,8 +416,16 @@ theorem store_mappedRange (m : Mem) (a : Nat) (bs : List Byte) (h : MappedRange 
   simp only [store_isSome m a bs h]
 
 theorem readMemory_eight (m : Mem) (a : Nat) : readMemory m a 8 = bytesAt m a 8 := by
-  rw [read_spec, show readSpan 8 = 8 by simp [readSpan]]
-  cases bytesAt m a 8 <;> simp
+  rcases (read_spec m a 8).1 with h | h
+  · exact h
+  · rw [h]
+    cases hb : bytesAt m a 8 with
+    | none => rfl
+    | some w =>
+      have hs := (read_total_long m a 8 (Or.inl (Nat.le_refl _))
+        ((bytesAt_isSome_iff m a 8).1 (by rw [hb]; rfl)))
+      rw [h] at hs
+      simp at hs
 
 theorem patchWord_length (ex bytes : List Byte) (dst src len : Nat) :
     (patchWord ex bytes dst src len).length = 8 := by
@@ -687,18 +803,25 @@ theorem write_success_iff (m : Mem) (a : Nat) (bs : List Byte) (hp : PageGranula
       unfold pageSize
       omega
 
-theorem write_then_read (m : Mem) (a : Nat) (bs : List Byte) (m' : Mem)
-    (h : writeBytesDap m a bs = .ok m') (hspan : MappedRange m a (readSpan bs.length)) :
-    readMemory m' a bs.length = some bs := by
+theorem store_granular (m : Mem) (a : Nat) (bs : List Byte) (h : MappedRange m a bs.length)
+    (hp : PageGranular m) : PageGranular (store m a bs) := by
+  intro x y hxy hx
+  rw [store_isSome m a bs h] at hx ⊢
+  exact hp x y hxy hx
+
+theorem write_then_read (m : Mem) (a : Nat) (bs : List Byte) (m' : Mem) (hp : PageGranular m)
+    (h : writeBytesDap m a bs = .ok m') : readMemory m' a bs.length = some bs := by
+  have hmr : MappedRange m a bs.length := (write_success_iff m a bs hp).1 ⟨m', h⟩
   have hm' := write_exact m a bs m' h
   subst hm'
-  have hmr : MappedRange m a bs.length :=
-    mappedRange_mono m _ _ _ _ hspan (Nat.le_refl _) (by have := le_readSpan bs.length; omega)
-  rw [read_spec, if_pos, bytesAt_eq_some_iff]
-  · refine ⟨rfl, ?_⟩
-    intro i hi
-    rw [(store_spec m a bs (a + i)).1 (by omega), show a + i - a = i by omega]
-  · rw [bytesAt_isSome_iff, store_mappedRange m a bs hmr]
-    exact hspan
+  have hmr' : MappedRange (store m a bs) a bs.length := (store_mappedRange m a bs hmr _ _).2 hmr
+  obtain ⟨r, hr, hl, hi⟩ := read_total _ a bs.length (store_granular m a bs hmr hp) hmr'
+  rw [hr]
+  congr 1
+  apply List.ext_getElem?
+  intro i
+  by_cases hlt : i < bs.length
+  · rw [← hi i hlt, (store_spec m a bs (a + i)).1 (by omega), show a + i - a = i by omega]
+  · rw [List.getElem?_eq_none (by omega), List.getElem?_eq_none (by omega)]
 
 end BsVerif.MemIO
